@@ -427,10 +427,10 @@ def extra_missing_markers(ctx, rec):
     if ctx.prop != "C02":
         fns = [f for f in fns if f in PLAN[ctx.prop]["random"]["fns"]]      # the rule of this property's tests under every spelling
     for fn in fns:
-        for rep in range(ctx.pick(14, 70)):
+        for rep in range(ctx.pick(21, 70)):
             c = g.base(fn)
-            if fn == "valid" and c["p"]["kind"] == "time":
-                continue
+            while fn == "valid" and c["p"]["kind"] == "time":
+                c = g.base(fn)       # (every spelling is visited for the numeric form: no repetition is given away)
             xc = carriers[rep % len(carriers)]
             if xc == "ma_fill" and fn not in ("loc", "speed") and c["x"] and all(v != gen_qc.NA for v in c["x"]):
                 c["x"][0] = gen_qc.NA            # (the carrier's guard: at least one element is really masked)
